@@ -165,9 +165,109 @@ def check_keyed(case, tr):
     return res
 
 
+def contiguous_history(rng, start, end, max_n=7, tail_shrink=False):
+    """Key histories over the contiguous key range 0..n-1 (what an ordered reduction accepts): grow at the top, shrink from the top,
+    update in place; sizes revisit earlier maxima and shrink right after a new maximum."""
+    sc, n = [], 0
+    ts = sorted(rng.sample(range(start + 1, end - 1), min(end - start - 2, rng.choice([5, 8, 12]))))
+    for t in ts:
+        ops = []
+        r = rng.random()
+        if n == 0 or (r < 0.4 and n < max_n):
+            for _ in range(rng.choice([1, 1, 2, 3])):
+                if n < max_n:
+                    ops.append(f"[{n}]={rng.randint(1, 60)}")
+                    n += 1
+        elif r < 0.7:
+            for _ in range(rng.choice([1, 1, 2])):
+                if n > 0:
+                    n -= 1
+                    ops.append(f"x[{n}]")
+        else:
+            for k in rng.sample(range(n), rng.choice([1, min(2, n)])):
+                ops.append(f"[{k}]={rng.randint(1, 60)}")
+        if ops:
+            sc.append(f"{t}|" + ",".join(ops))
+    if tail_shrink and ts:
+        # the last activity: a new maximum immediately followed by a shrink, nothing afterwards
+        t = ts[-1] + 1
+        grow = [f"[{n + j}]={rng.randint(1, 60)}" for j in range(rng.choice([1, 2]))]
+        sc.append(f"{t}|" + ",".join(grow))
+        n += len(grow)
+        if t + 1 < end:
+            sc.append(f"{t + 1}|x[{n - 1}]")
+    return sc
+
+
+def ORD(a, b):
+    x = a * 3 + b
+    return x % M_WRAP if x >= 0 else -((-x) % M_WRAP)      # C++ remainder truncates towards zero
+
+
+def gen_ordered_case(rng, name):
+    """reduce(f, tsd, zero, is_associative=False): a left fold in key order over the contiguous keys 0..n-1 starting from the
+    zero - a separate implementation (a chain of combiner graphs rebuilt whenever the key count changes)."""
+    start, end = 0, rng.choice([16, 24, 36])
+    c = Case(name, start, end)
+    fn = rng.choice(["ord", "fn2:2", "sum"])
+    zero = rng.choice([0, 7, -3, 100])
+    c.scripts[9] = [(t, t) for t in range(start, end)]
+    c.cscripts[1] = contiguous_history(rng, start, end, tail_shrink=rng.random() < 0.4)
+    c.graphs["main"] = [S("clk", "src", uid=9, mode=1), S("d", "csrc", shape="tsd", uid=1), S("r", "reduce", "d", fn=fn, zero=zero, assoc=0),
+                        S("", "cprobe", "r", "clk", uid=20), S("", "rec", "r", uid=21)]
+    c.graphs["fn2"] = [S("s", "ord2", "p0", "p1"), S("", "RET", "s")]
+    c.meta.update(ordered=1, shape="tsd", fn=fn, zero=zero, big=False)
+    return c
+
+
+def check_ordered(case, tr):
+    res = Result(signature=case.text().split("\n", 1)[1])
+    run = tr.runs[0]
+    if tr.build_error or run.error:
+        res.violations.append(Violation(f"build/run failed: {tr.build_error or run.error}"))
+        return res
+    probe = {t: d for t, d, _ in parse_dumps(run).get(20, [])}
+    wl = dict(write_log(run).get(1, []))
+    node = Node(SHAPES["tsd"])
+    f = (lambda a, b: (a + b)) if case.meta["fn"] == "sum" else ORD
+    C = {"ordered_cycles_checked": 0, "ordered_shrinks_after_new_maximum": 0, "ordered_folds_of_3_or_more": 0}
+    peak, prev_n = 0, 0
+    for t in range(case.start, case.end):
+        for op in wl.get(t, []):
+            node.apply(op, t)
+        keys = sorted(node.children)
+        vals = [node.children[k].val for k in keys if node.children[k].val is not None]
+        n = len(keys)
+        if n < prev_n and prev_n == peak and C.get("_peak_t") == t - 1:
+            C["ordered_shrinks_after_new_maximum"] += 1
+        if n > peak:
+            peak = n
+            C["_peak_t"] = t
+        prev_n = n
+        d = probe.get(t)
+        if d is None:
+            res.violations.append(Violation(f"probe not woken at t={t}"))
+            continue
+        if t == case.start:
+            continue            # the zero constant arrives in the first cycle
+        exp = functools.reduce(f, vals, case.meta["zero"])
+        C["ordered_cycles_checked"] += 1
+        if len(vals) >= 3:
+            C["ordered_folds_of_3_or_more"] += 1
+        got = int(d["val"]) if d["v"] else None
+        if got != exp and len(res.violations) < 5:
+            res.violations.append(Violation(f"t={t}: ordered reduce({case.meta['fn']}, zero={case.meta['zero']}) over values {vals} (key order) reads "
+                                            f"{'invalid' if got is None else got}, the left fold from the zero is {exp}"))
+    C.pop("_peak_t", None)
+    res.counters = C
+    res.nontrivial = C["ordered_folds_of_3_or_more"] >= 1
+    return res
+
+
 def generate(rng, tier, seed):
     n = scaled(250 if tier == "quick" else 4000)
-    return [gen_case11(rng, f"c11_{seed}_{k}", k) for k in range(n)] + [gen_keyed_case(rng, f"c11_{seed}_kd{k}") for k in range(n // 4)]
+    return [gen_case11(rng, f"c11_{seed}_{k}", k) for k in range(n)] + [gen_keyed_case(rng, f"c11_{seed}_kd{k}") for k in range(n // 4)] + \
+        [gen_ordered_case(rng, f"c11_{seed}_or{k}") for k in range(n // 4)]
 
 
 def expected(values, fn, zero):
@@ -186,6 +286,8 @@ def check(case, tr):
         return res
     if case.meta.get("keyed"):
         return check_keyed(case, tr)
+    if case.meta.get("ordered"):
+        return check_ordered(case, tr)
     run = tr.runs[0]
     if run.error:
         res.violations.append(Violation(f"run failed: {run.error[:300]}"))
